@@ -45,11 +45,24 @@ def make_rows(case):
     for ind in case['inds']:
         _id = fmt_id(ind['id'], it)
         block = []
+        ren = case.get('obs_rename') or {}
+        doses = list(ind.get('doses', []))
+        joined = None
+        if ind.get('same_row') and doses:
+            # the first dose is recorded in the row of the measurement taken at
+            # the time of administration
+            joined = doses.pop(0)
         for obs, pairs in ind['obs'].items():
             for t, v in pairs:
-                block.append({'ID': _id, 'Time': t, 'Observable': obs, 'Value': v,
-                              'Dose': np.nan, 'Duration': np.nan})
-        for t, dose, dur in ind.get('doses', []):
+                row = {'ID': _id, 'Time': t, 'Observable': ren.get(obs, obs),
+                       'Value': v, 'Dose': np.nan, 'Duration': np.nan}
+                if joined is not None and t == joined[0] and \
+                        obs == list(ind['obs'])[0]:
+                    row['Dose'] = joined[1]
+                    row['Duration'] = np.nan if joined[2] is None else joined[2]
+                    joined = None
+                block.append(row)
+        for t, dose, dur in doses:
             block.append({'ID': _id, 'Time': t, 'Observable': np.nan,
                           'Value': np.nan, 'Dose': dose,
                           'Duration': np.nan if dur is None else dur})
@@ -187,6 +200,8 @@ def name_covariates(pop, reverse=False):
 
 def controller_posterior(case, df, keys):
     m, oo = mech_model(case)
+    if case.get('obs_rename'):
+        oo = {out: case['obs_rename'].get(name, name) for out, name in oo.items()}
     c = chi.ProblemModellingController(m, error_models(case))
     if case.get('fix_before_data'):
         # parameters are fixed before the data are given
@@ -414,7 +429,7 @@ WORKERS = {'individual': w_case, 'hierarchical': w_case, 'dosing': w_case,
 
 # ------------------------------------------------------------ cases
 
-def individuals(n, two_obs, dosing, with_cov, seed):
+def individuals(n, two_obs, dosing, with_cov, seed, replicates=False):
     inds = []
     for i in range(n):
         nt = [2, 3, 1][i % 3]
@@ -430,7 +445,16 @@ def individuals(n, two_obs, dosing, with_cov, seed):
             vb = vals.reals('c14.vb%d' % i, ntb, 0.8, 6.0, seed) if ntb else []
             obs['B'] = list(zip(tb, vb))
         ind = {'id': [3, 1, 2][i], 'obs': obs}
-        if dosing == 'infusion_first':
+        if replicates:
+            # replicate measurements: the same observable at the same time again
+            obs['A'] = sorted(obs['A'] + [(ta[0], va[0] * 1.1 + 0.2)]
+                              + ([(ta[-1], va[-1] * 0.9)] if i == 1 else []))
+        if dosing == 'same_row':
+            ind['doses'] = [[(0.4, 2.0, 0.5)], [(0.5, 1.0, None), (1.5, 3.0, 0.25)],
+                            [(0.2, 1.5, 0.3)]][i % 3]
+            ind['same_row'] = True
+            obs['A'] = sorted(obs['A'] + [(ind['doses'][0][0], 0.07 + 0.01 * i)])
+        elif dosing == 'infusion_first':
             # an infusion row followed by a row without duration (bolus), and back
             ind['doses'] = [[(0.3, 2.0, 0.4), (1.2, 1.0, None)],
                             [(0.1, 1.5, None), (0.6, 3.0, 0.8), (1.4, 0.5, None)],
@@ -510,6 +534,39 @@ def build(tier, seed):
                         if not direct:
                             c['pop'] = None
                         dose_cases.append(c)
+    # replicate measurements (one observable measured twice at one time)
+    for model, pop in (('toy1', None), ('toy2', None), ('toy1', pops['toy1'][0])):
+        for n in (1, 2, 3):
+            inds = individuals(n, model == 'toy2', False, False, seed,
+                               replicates=True)
+            for (bo, it) in orders(n, 'quick'):
+                (ind_cases if pop is None else hier_cases).append({
+                    'model': model, 'inds': inds, 'id_type': 'int',
+                    'block_order': bo, 'interleave': it, 'dosing': False,
+                    'extras': {}, 'fix': None, 'pop': pop, 'cov_names': [],
+                    'pop_first': True, 'seed': seed})
+    # a dose recorded in the row of a measurement
+    for n in (2, 3):
+        inds = individuals(n, False, 'same_row', False, seed)
+        for (bo, it) in orders(n, 'thorough')[::2]:
+            dose_cases.append({
+                'model': 'lib1', 'inds': inds, 'id_type': 'int', 'block_order': bo,
+                'interleave': it, 'dosing': True,
+                'extras': {'duration_column': True}, 'pop': None, 'direct': True,
+                'seed': seed})
+    # dataset observables named like the model outputs they are NOT mapped to
+    for n in (1, 2, 3):
+        inds = individuals(n, True, False, False, seed)
+        for (bo, it) in orders(n, 'quick'):
+            ind_cases.append({
+                'model': 'toy2', 'inds': inds, 'id_type': 'int', 'block_order': bo,
+                'interleave': it, 'dosing': False, 'extras': {}, 'fix': None,
+                'seed': seed, 'obs_rename': {'A': 'o1', 'B': 'o0'}})
+    ind_cases.append({
+        'model': 'toy1', 'inds': individuals(2, True, False, False, seed),
+        'id_type': 'int', 'block_order': [0, 1], 'interleave': 'grouped',
+        'dosing': False, 'extras': {}, 'fix': None, 'seed': seed,
+        'obs_rename': {'B': 'o0', 'A': 'conc'}})
     # row labels other than 0..n-1
     for ix in ('reversed', 'shuffled', 'gaps', 'dup'):
         for model, pop in (('toy2', None), ('toy1', pops['toy1'][2]),
